@@ -540,7 +540,7 @@ func checkSetpathX(c setCase) string {
 		if _, isStr := k.(string); isStr {
 			continue
 		}
-		if i, ok := idxOf(k); !ok || i > 1000 {
+		if i, ok := idxOf(k); !ok || i > 2000 {
 			rec.Discard("outside-domain")
 			return ""
 		}
